@@ -4,7 +4,7 @@ CHECK = {
                     "TTL lapse is checked with a 1 s wrap TTL and a 2.5 s wait (only 'dead after', never 'alive near expiry')"],
     "units": [
         unit("unwrap", "vault", ["vault/c18_test.go"], "^TestVerif_C18_",
-             quick={"checks": 250, "shards": 1, "cap": 900},
+             quick={"checks": 200, "shards": 1, "cap": 900},
              thorough={"checks": 1500, "shards": 16, "cap": 3000}),
     ],
 }
